@@ -45,3 +45,44 @@ def difficultyForPlasma (p : Nat) : Option Nat :=
 def checkPoWNonce (h8 : Bytes) (d : Nat) : Bool := greaterDifficulty h8 (targetBytes d)
 
 end ZV.Pow
+
+namespace ZV.Pow
+open ZV
+
+/-- `vm.AvailablePlasma`: fused plasma of the beneficiary + plasma committed on the confirmed chain − plasma committed on
+    the (unconfirmed) chain the block extends. `none` = "got negative available plasma" (the caller panics → the block
+    is rejected as a VM panic). The result is capped by MaxFussedAmountForAccount as coded. -/
+def availablePlasma (fusedQsr : Int) (committed uncommitted : Nat) : Option Nat :=
+  let a : Int := (fusedAmountToPlasma fusedQsr : Int) + committed - uncommitted
+  if a < 0 then none
+  else if a > (Gen.MaxFussedAmountForAccountBig : Int) then some Gen.MaxFussedAmountForAccount
+  else some a.toNat
+
+inductive PlasmaVerdict where
+  | ok (total : Nat)
+  | negativeAvailable
+  | notEnoughPlasma
+  | limitReached
+  | notEnoughTotal
+  deriving DecidableEq, Repr
+
+/-- `vm.enoughPlasma` for a user block: fused ≤ available, total = pow plasma + fused (uint64), total ≤ cap, total ≥ base -/
+def enoughPlasma (fusedQsr : Int) (committed uncommitted fused difficulty base : Nat) : PlasmaVerdict :=
+  match availablePlasma fusedQsr committed uncommitted with
+  | none => .negativeAvailable
+  | some avail =>
+    if avail < fused then .notEnoughPlasma
+    else
+      let total := (difficultyToPlasma difficulty + fused) % two64
+      if total > Gen.MaxPlasmaForAccountBlock then .limitReached
+      else if total < base then .notEnoughTotal
+      else .ok total
+
+/-- base cost of a user block: receive / plain send with data / embedded method cost from the table -/
+def basePlasma (isReceive : Bool) (methodCost : Option Nat) (dataLen : Nat) : Nat :=
+  if isReceive then Gen.AccountBlockBasePlasma
+  else match methodCost with
+    | some c => c
+    | none => dataLen * Gen.ABByteDataPlasma + Gen.AccountBlockBasePlasma
+
+end ZV.Pow
